@@ -586,6 +586,28 @@ func (c *Ctx) Call(op string, input []byte, f func()) (panicked bool, pv any, st
 	return
 }
 
+// EscapedPanic records a panic that was not raised inside Call.
+func (c *Ctx) EscapedPanic(r any, stack string) {
+	culprit := PanicCulprit(stack)
+	op, _ := c.lastOp.Load().(string)
+	if strings.HasPrefix(culprit, "github.com/go-i2p/") {
+		c.ViolateP("C04", culprit, "panic", map[string]any{"panic_at": culprit, "seen_by": c.Prop, "class": "outside-monitored-call", "last_op": op}, nil, fmt.Sprint(r), stack)
+		c.mu.Lock()
+		if c.Prop != "C04" && c.Prop != "C20" {
+			c.sum.Panics++
+		}
+		c.mu.Unlock()
+		return
+	}
+	c.mu.Lock()
+	c.sum.Floors = append(c.sum.Floors, fmt.Sprintf("harness panic in %s (job %s index %d): %v", culprit, c.curJob, c.curIdx, r))
+	lst, _ := c.sum.Extra["panic_stacks"].([]any)
+	if len(lst) < 3 {
+		c.sum.Extra["panic_stacks"] = append(lst, fmt.Sprintf("%v\n%s", r, stack))
+	}
+	c.mu.Unlock()
+}
+
 var pendBuf []byte
 
 func (c *Ctx) writePending(op string, input []byte) {
